@@ -355,10 +355,14 @@ def analyse_checks_module(ctx):
             ctx.fail("C20:raise:_check_rotation_matrix:comparison%d" % k, "a failing comparison does not raise", core.loc(mod, node))
         else:
             note_raise("_check_rotation_matrix", exck, rnode)
-        if len(args) != 2 or set(kwargs) - {"rtol", "atol"}:
+        if not (2 <= len(args) <= 4) or set(kwargs) - {"rtol", "atol"} or (len(args) > 2 and "rtol" in kwargs) or (len(args) > 3 and "atol" in kwargs):
             raise AnalysisError("_check_rotation_matrix: allclose call of unexpected form (line %d)" % node.lineno)
-        rtol = float(scalar(kwargs["rtol"]).const_value()) if "rtol" in kwargs else NP_ALLCLOSE_DEFAULT["rtol"]
-        atol = float(scalar(kwargs["atol"]).const_value()) if "atol" in kwargs else NP_ALLCLOSE_DEFAULT["atol"]
+        # allclose(a, b, rtol=1e-05, atol=1e-08): the tolerances may be given by position
+        rtol_v = args[2] if len(args) > 2 else kwargs.get("rtol")
+        atol_v = args[3] if len(args) > 3 else kwargs.get("atol")
+        args = args[:2]
+        rtol = float(scalar(rtol_v).const_value()) if rtol_v is not None else NP_ALLCLOSE_DEFAULT["rtol"]
+        atol = float(scalar(atol_v).const_value()) if atol_v is not None else NP_ALLCLOSE_DEFAULT["atol"]
         wh = core.loc(mod, node)
         verdict = None
         for a, b in (args, args[::-1]):
